@@ -141,6 +141,17 @@ def genState (n : Nat) (draws : List Nat) : State :=
   let b := walk n draws
   { puzzle := b.1, empty := b.2, stepCount := 0 }
 
+/-- `SlidingTilePuzzle.reset` after the generator's moves have been drawn: the generated state and
+`restart(observation)` with the observation built from it -/
+def reset (cfg : Cfg) (draws : List Nat) : State × TimeStep Obs :=
+  (genState cfg.n draws, resetTimeStep cfg.n (genState cfg.n draws))
+
+/-- an episode without auto-reset: `step` iterated over the action list; every (successor state, timestep) is listed and,
+like the implementation, stepping simply continues after LAST -/
+def run (cfg : Cfg) : State → List Int → List (State × TimeStep Obs)
+  | _, [] => []
+  | s, a :: as => step cfg s a :: run cfg (step cfg s a).1 as
+
 /-! ### L2: the rules -/
 
 /-- content of cell `p` (0 outside the board) -/
